@@ -91,7 +91,12 @@ func cmdCheck(args []string) int {
 		tmo = 120 * time.Second
 	}
 	scratch, _ := os.MkdirTemp("", "govc")
-	defer os.RemoveAll(scratch)
+	if d := os.Getenv("GOVC_KEEP"); d != "" { // debugging aid: keep every SMT file of the run
+		os.MkdirAll(d, 0o755)
+		scratch = d
+	} else {
+		defer os.RemoveAll(scratch)
+	}
 	replayDir := filepath.Join(outDir(), "replays", id)
 	os.RemoveAll(replayDir)
 
